@@ -24,7 +24,8 @@ LEVEL_TEXT = ("Machine-checked proof (Coq, closed under the global context) over
               "raised exactly when a category has no common entry, and that ext-info-/kex-strict- markers are "
               "never chosen; tied to transport.py by generated tables and a differential direct drive of real "
               "Transport objects every run.")
-LEVEL_NOTE = ("Trusted: Coq kernel + vm_compute; hand-written model coq/Model/C05.v (the to_pop index loop is modelled "
+LEVEL_NOTE = ("Domain: peer name-lists that are valid UTF-8 (a malformed one may be rejected with "
+              "UnicodeDecodeError - nothing is agreed; exception hygiene is C38's); Trusted: Coq kernel + vm_compute; hand-written model coq/Model/C05.v (the to_pop index loop is modelled "
               "literally and proved equal to the filter the model uses; its shape and the marker/cert/gex literals are "
               "re-read from the source by gen/c05.py); gss_kex=True is exercised with a stub GSSAuth (no GSS library "
               "here); the strict-kex seqno check (C09) is outside the model; host key 'not disabled' is stated modulo "
@@ -111,7 +112,7 @@ def setup(ctx):
 
 def cn(n):
     i = _state["names"].get(n)
-    return "nm_%d" % i if i is not None else coq(n)
+    return "nm_%d" % i if i is not None else coq(list(n.encode("utf-8", "surrogateescape")))
 
 
 def cl(names):
@@ -231,6 +232,9 @@ def gen_peer(rng, st, adv, benign=False):
         for _ in range(nmark):
             pool = ownm if (ownm and rng.random() < 0.5) else MARKERS + ["ext-info-x", "kex-strict-zz"]
             l.insert(rng.randrange(len(l) + 1), rng.choice(pool))
+        own_real = [n for n in adv[i] if not is_marker(n)]
+        if own_real and rng.random() < (0.1 if benign else 0.2):
+            l.insert(rng.choice([0, 0, rng.randrange(len(l) + 1)]), twin(rng.choice(TWIN_KINDS), rng.choice(own_real)))
         l = [n for n in l if "," not in n]
         lists.append(l)
     return lists
@@ -296,6 +300,70 @@ def rankdiff_peer(rng, st, i):
     return fn
 
 
+TWIN_KINDS = ["inv-suffix", "inv-prefix", "inv-middle", "inv-lead2", "trail-space", "lead-space", "bom", "nul",
+              "upper", "latin", "zwsp", "prefix", "tab"]
+
+
+def twin(kind, k):
+    """A name the peer may list that is NOT algorithm k but collapses to it under a sloppy decoder
+    (bytes that are invalid UTF-8 are carried as surrogate escapes, see nb())."""
+    return {"inv-suffix": k + "\udcff", "inv-prefix": "\udcfe" + k, "inv-middle": k[:3] + "\udc80" + k[3:],
+            "inv-lead2": k + "\udcc3", "trail-space": k + " ", "lead-space": " " + k, "bom": "\ufeff" + k,
+            "nul": k + "\x00", "upper": k.upper(), "latin": k + "\u00e9", "zwsp": k + "\u200b",
+            "prefix": k[:-1], "tab": k + "\t"}[kind]
+
+
+def nearmiss_peer(rng, st, i, kind, only_twins):
+    """peer_fn: benign lists; category i lists twins of our own names first (or nothing else)."""
+    def fn(own):
+        lists = gen_peer(rng, st, own, benign=True)
+        mine_ = [n for n in own[i] if not is_marker(n)]
+        if not mine_:
+            return lists
+        tw = [twin(kind, n) for n in mine_[:2]]
+        tw = [x for x in tw if x not in mine_ and "," not in x]
+        if only_twins:
+            lists[i] = tw + [UNKNOWN[0]]
+        else:
+            lists[i] = tw + [mine_[-1]] + [twin(kind, mine_[-1])]
+        return lists
+    return fn
+
+
+def run_nearmiss(ctx, st, cases_adv, cases_neg, full):
+    """Both roles x 8 categories x every twin kind (quick: kinds rotate with the seed): a near-miss name is
+    an unknown name - never agreed on, and alone it gives IncompatiblePeer (a KEXINIT whose name-list is not
+    valid UTF-8 may instead be rejected as malformed)."""
+    rng = ctx.rng
+    allk = sorted(st["keys"])
+    comp3 = ["zlib@openssh.com", "none", "zlib"]
+    for role in ("Client", "Server"):
+        for i in range(8):
+            kinds = TWIN_KINDS if full else [TWIN_KINDS[(ctx.seed + i + j) % len(TWIN_KINDS)] for j in (0, 4, 9)] + \
+                TWIN_KINDS[:2]
+            for kind in dict.fromkeys(kinds):
+                for only in (False, True):
+                    cfg = plain_cfg(allk if role == "Server" else [], moduli=True, prefs={"compression": comp3})
+                    run_single(ctx, st, role, cfg, None, "nearmiss-%s%s" % (kind, "-only" if only else ""),
+                               cases_adv, cases_neg, check_adv=False, peer_fn=nearmiss_peer(rng, st, i, kind, only))
+                    k = "near-miss/%s/%s" % (CAT8[i], kind)
+                    ctx.dist[k] = ctx.dist.get(k, 0) + 1
+
+
+def judge(ctx, case, role, mcfg, own, peer, outcome, cases_neg):
+    """Oracle + model case for one _parse_kex_init outcome.  A peer KEXINIT whose name-lists are not valid
+    UTF-8 is malformed (RFC 4251 names are US-ASCII): rejecting it with UnicodeDecodeError agrees on nothing
+    and is accepted here (exception hygiene is C38's subject); any OTHER outcome on such input is judged on
+    the byte-level lists like every other case."""
+    if outcome == ("exc", "UnicodeDecodeError") and invalid_utf8(peer):
+        ctx.dist["malformed-utf8-rejected"] = ctx.dist.get("malformed-utf8-rejected", 0) + 1
+        return
+    check_property(ctx, case, role, mcfg, own, peer, outcome)
+    tally_rankdiff(ctx, role, own, peer, outcome)
+    cases_neg.append(("(CaseNeg %s %s %s %s)" % (role, coq_cfg(mcfg), coq_ki(peer), coq_outcome(outcome)), [1], case,
+                      outcome))
+
+
 # ---------------------------------------------------------------------------------------------
 # driving the implementation
 
@@ -346,29 +414,43 @@ def model_cfg(t, cfg):
             "moduli": t._modulus_pack is not None, "strict": bool(t.advertise_strict_kex)}
 
 
+def nb(n):
+    """Wire bytes of a name; names that are not valid UTF-8 are held as str with surrogate escapes."""
+    return n.encode("utf-8", "surrogateescape")
+
+
+def invalid_utf8(lists):
+    return any("\udc80" <= ch <= "\udcff" for l in lists for n in l for ch in n)
+
+
 def read_lists(raw):
-    """The eight name lists of a KEXINIT payload (raw starts with the message type byte)."""
-    from paramiko.message import Message
-    m = Message(raw[17:])
-    return [m.get_list() for _ in range(8)]
+    """The eight name lists of a KEXINIT payload (raw starts with the message type byte), parsed here at
+    the byte level (RFC 4251 name-list: u32 length, comma separated) - NOT with paramiko's Message, so that
+    the oracle's view of what was offered does not depend on the helper the implementation parses with."""
+    import struct
+    pos = 17
+    out = []
+    for _ in range(8):
+        (n,) = struct.unpack(">I", raw[pos:pos + 4])
+        body = raw[pos + 4:pos + 4 + n]
+        pos += 4 + n
+        out.append([x.decode("utf-8", "surrogateescape") for x in body.split(b",")])
+    return out
 
 
 def read_own(raw):
-    """Our own advertised lists; an empty name-list is read back by Message.get_list as [""]."""
+    """Our own advertised lists; an empty name-list splits into [""]."""
     return [[] if l == [""] else l for l in read_lists(raw)]
 
 
 def build_kexinit(lists):
-    from paramiko.message import Message
-    m = Message()
-    m.add_bytes(b"\x05" * 16)
-    for l in lists:
-        m.add_list(l)
-    m.add_list([])
-    m.add_list([])
-    m.add_boolean(False)
-    m.add_int(0)
-    return m.asbytes()
+    """KEXINIT payload (without the type byte) built at the byte level; names may carry arbitrary bytes."""
+    import struct
+    out = b"\x05" * 16
+    for l in list(lists) + [[], []]:
+        body = b",".join(nb(n) for n in l)
+        out += struct.pack(">I", len(body)) + body
+    return out + b"\x00" + struct.pack(">I", 0)
 
 
 def drive_parse(st, t, payload):
@@ -526,12 +608,9 @@ def run_single(ctx, st, role, cfg, peer_lists, kind, cases_adv, cases_neg, check
     nontrivial = outcome[0] == "ok" or any(peer)
     ctx.count((role, repr(sorted(cfg.items(), key=str)), peer_lists), nontrivial=nontrivial,
               kind="%s-%s-%s" % (kind, role.lower(), "ok" if outcome[0] == "ok" else outcome[1]))
-    check_property(ctx, case, role, mcfg, own, peer, outcome)
-    tally_rankdiff(ctx, role, own, peer, outcome)
+    judge(ctx, case, role, mcfg, own, peer, outcome, cases_neg)
     if check_adv:
         cases_adv.append(("(CaseAdv %s %s %s)" % (role, coq_cfg(mcfg), coq_ki(own)), [1], case, own))
-    cases_neg.append(("(CaseNeg %s %s %s %s)" % (role, coq_cfg(mcfg), coq_ki(peer), coq_outcome(outcome)), [1], case,
-                      outcome))
     return mcfg, own, outcome
 
 
@@ -813,11 +892,8 @@ def run_sequence(ctx, st, case, cases_adv, cases_neg):
                      "configured disabled_algorithms) after the sequence %s%s"
                      % (n + 1, bad[0], case["ops"], " with a shared disabled_algorithms dict" if case.get("warmup") else ""),
                      case=case, expected=want, observed=own)
-        check_property(ctx, case, role, mcfg, own, peer, outcome)
-        tally_rankdiff(ctx, role, own, peer, outcome)
+        judge(ctx, case, role, mcfg, own, peer, outcome, cases_neg)
         cases_adv.append(("(CaseAdv %s %s %s)" % (role, coq_cfg(mcfg), coq_ki(own)), [1], case, own))
-        cases_neg.append(("(CaseNeg %s %s %s %s)" % (role, coq_cfg(mcfg), coq_ki(peer), coq_outcome(outcome)), [1],
-                          case, outcome))
 
 
 def seq_targeted(ctx, st, cases_adv, cases_neg):
@@ -1058,7 +1134,10 @@ def run(ctx):
                 "role and category with >= 2 common algorithms ranked differently by the two sides and the other "
                 "categories compatible (counts: ranked-differently/<role>/<cat>); a grid agreeing on every table entry "
                 "of every type (AEAD ciphers, etm MACs, gss/gex kex, cert key names, zlib) and, with that value "
-                "agreed, emptying each of the 8 categories in turn (counts: fail-grid/<role>/<type>=<value>); sequences: several transports built "
+                "agreed, emptying each of the 8 categories in turn (counts: fail-grid/<role>/<type>=<value>); peer "
+                "KEXINITs are built and re-parsed at the byte level (not with paramiko's Message) and list near-miss "
+                "twins of our own names (invalid UTF-8 bytes, spaces, BOM, NUL, case, prefix; counts near-miss/<cat>/"
+                "<kind>); sequences: several transports built "
                 "from one caller-owned disabled_algorithms dict (after a no-moduli server), configuration through "
                 "use_compression / connect(hostkey=) / SecurityOptions with preferred_* reads in between, second "
                 "negotiation on the same object - KEXINIT compared with the final configuration; plus paired real "
@@ -1102,6 +1181,8 @@ def run(ctx):
     # fail-iff per emptied category x per agreed value of the other categories (AEAD ciphers included)
     run_fail_grid(ctx, st, cases_adv, cases_neg, full=ctx.thorough)
     run_disjoint_pairs(ctx, st, cases_adv, cases_neg)
+    # near-miss names (invalid UTF-8, whitespace, BOM, NUL, case) are unknown names, in every category
+    run_nearmiss(ctx, st, cases_adv, cases_neg, full=ctx.thorough)
     # second use / other entry points / caches: sequences on shared configuration objects
     seq_targeted(ctx, st, cases_adv, cases_neg)
     for _ in range(60 * scale):
